@@ -6,6 +6,11 @@
 From JV Require Import Sem.
 Open Scope Z_scope.
 
+Lemma bind_assoc {A B C} (m : M A) (f : A -> M B) (g : B -> M C) : bind (bind m f) g = bind m (fun x => bind (f x) g).
+Proof. destruct m; reflexivity. Qed.
+Lemma bind_ret_r {A} (m : M A) : bind m (fun x => Ret x) = m.
+Proof. destruct m; reflexivity. Qed.
+
 Lemma bind_ext {A B} (m : M A) (f g : A -> M B) : (forall x, f x = g x) -> bind m f = bind m g.
 Proof. intros H. destruct m; cbn [bind]; [apply H|reflexivity]. Qed.
 
@@ -19,6 +24,8 @@ Ltac meq_step :=
   | progress cbn [bind]
   | progress cbv zeta
   | progress autounfold with gen_new
+  | rewrite bind_assoc
+  | rewrite bind_ret_r
   | match goal with
     | |- bind ?m _ = bind ?m _ => apply bind_ext; intro
     end
